@@ -115,6 +115,15 @@ pub fn gen_aircraft(rng: &mut Rng, kind: u8, max_reports: usize) -> AcGen {
         0..=3 => {
             let n_air = if kind == 3 { 0 } else { rng.usize(1, 4) };
             let mut alt = rng.frange(1500.0, 40000.0);
+            // balloons, HAPS, U-2: above the 25 ft code (50175 ft), level flight
+            let high = rng.chance(0.05);
+            if high {
+                alt = match rng.below(3) {
+                    0 => rng.frange(50_200.0, 126_600.0),
+                    1 => rng.frange(65_000.0, 67_000.0),
+                    _ => rng.frange(50_200.0, 75_000.0),
+                };
+            }
             let mk_air = |rng: &mut Rng, alt: &mut f64, legs: &mut Vec<Leg>| {
                 let dur = *rng.pick(&[20.0, 60.0, 200.0, 600.0, 1500.0]) * rng.frange(0.5, 1.5);
                 let gs = match rng.below(4) {
@@ -122,9 +131,11 @@ pub fn gen_aircraft(rng: &mut Rng, kind: u8, max_reports: usize) -> AcGen {
                     1 => rng.frange(650.0, 700.0),
                     _ => rng.frange(120.0, 700.0),
                 };
-                let vr = *rng.pick(&[0.0, 0.0, 1500.0, -1500.0, 3000.0]);
+                let vr = if *alt > 45_000.0 { 0.0 } else { *rng.pick(&[0.0, 0.0, 1500.0, -1500.0, 3000.0]) };
                 legs.push(leg(dur, rng.frange(0.0, 360.0), gs, false, *alt, vr));
-                *alt = (*alt + vr * dur / 60.0).clamp(500.0, 45000.0);
+                if vr != 0.0 {
+                    *alt = (*alt + vr * dur / 60.0).clamp(500.0, 45000.0);
+                }
             };
             let mk_ground = |rng: &mut Rng, legs: &mut Vec<Leg>, start_fast: bool| {
                 let hdg = rng.frange(0.0, 360.0);
@@ -625,7 +636,7 @@ fn build(plan: &C06Plan, skipped: &mut u64) -> Result<Vec<Built>, String> {
         let _ = i;
         if r.tc == 255 {
             // type code 0: barometric altitude, no position
-            let me: u64 = (world::ac12_25ft(truth.alt as i32) as u64) << 36;
+            let me: u64 = (world::ac12(truth.alt as i32, world::uses_gillham(ac.icao, truth.alt as i32)) as u64) << 36;
             let frame = world::df17(ac.icao, 5, me);
             match Message::try_from(frame.as_slice()) {
                 Ok(message) => v.push(Built {
@@ -642,7 +653,8 @@ fn build(plan: &C06Plan, skipped: &mut u64) -> Result<Vec<Built>, String> {
             world::df17_surface_position(ac.icao, tc, truth.gs, truth.heading, truth.lat, truth.lon, r.odd)
         } else {
             let tc = if (9..=18).contains(&r.tc) || (20..=22).contains(&r.tc) { r.tc } else { [9u8, 10, 11, 12, 13, 14, 15, 16, 17, 18, 20, 21, 22][(sel % 13) as usize] };
-            world::df17_airborne_position(ac.icao, tc, truth.alt as i32, truth.lat, truth.lon, r.odd)
+            let alt = truth.alt as i32;
+            world::df17_airborne_position_alt(ac.icao, tc, world::ac12(alt, world::uses_gillham(ac.icao, alt)), truth.lat, truth.lon, r.odd)
         };
         if world::nl_margin(enc.rlat) < 1e-6 {
             *skipped += 1;
@@ -1120,7 +1132,7 @@ impl Scenario for Decode1090Pos {
                 ("input file", "stub (written by the driver before the process starts; no I/O faults injected)"),
             ],
             assumptions: vec![
-                "decode1090 moves its reference to any airborne position decoded below 1000 ft (update_reference); the driver tracks that reference from the printed records and judges a surface position only while the reference in force lies within 40 NM of the aircraft, as the property's quantifier states",
+                "decode1090 moves its reference to any airborne position decoded below 1000 ft (update_reference); the driver tracks that reference from the printed positions and the altitudes as the transponders sent them (25 ft code, or the 100 ft Gillham code above 50175 ft and for one address in nine) and judges a surface position only while the reference in force lies within 40 NM of the aircraft, as the property's quantifier states",
                 "printed coordinates are compared after the JSON text round trip (no tolerance needed at 25 m)",
             ],
             fault_kinds: vec!["loss_or_gap_over_9_5s", "duplicate", "timestamp_swap", "order_swap", "merged_by_dedup"],
@@ -1236,7 +1248,11 @@ pub fn execute_decode1090(plan: &C06Plan) -> Outcome<C06Plan> {
                         ));
                     }
                 }
-                if !t.surface && v["altitude"].as_i64().map_or(false, |a| a < 1000) {
+                // (the altitude as the transponder sent it, not as printed: a
+                // reference moved by a misread altitude is no excuse)
+                let alt = t.alt as i32;
+                let icao = plan.aircraft[plan.reports[b.idx].ac as usize % plan.aircraft.len()].icao;
+                if !t.surface && world::altitude_as_sent(alt, world::uses_gillham(icao, alt)).map_or(false, |a| a < 1000) {
                     reference = Some((la, lo));
                     out.count("reference_moved", 1);
                 }
